@@ -88,8 +88,7 @@ def VA(R, skip):
                 **{**PIO, "objbits": 11})
 
 
-# all clauses of the task: FAILS on the tree as found (three defect candidates, see the unit / report)
-ob("NCvario_r2", "C03", timeout=900, tier="thorough", **VA(2, False))
-# the clauses the tree satisfies: in-range decomposition (b), -1 for every out-of-range request, no cell outside the region
-ob("NCvario_r2_core", "C03", timeout=900, tier="thorough", **VA(2, True))
-ob("NCvario_r3_core", "C03", timeout=3000, tier="thorough", **VA(3, True))
+# all clauses: failed on the tree as found (D51 a failing request grows the unlimited dimension, D52 a run of 0 cells), both repaired.
+# ~12 GB, 1-3 min.  (-DVA_SKIP_FINDINGS, the variant without those two clauses, is no longer registered.)
+ob("NCvario_r2", "C03", timeout=900, tier="thorough", mem_gb=24, **VA(2, False))
+# (NCvario_r3_core -- rank 3 -- needs more than 40 GB / 50 min on the repaired NCvario and is not registered)
